@@ -252,9 +252,49 @@ async fn routing_and_faults(ctx: &Ctx, rng: &mut Rng, epmd: &net::EpmdTable, id:
     let mut uid: i128 = id as i128 * 10_000;
     let steps = 6 + rng.below(14);
     let mut trace: Vec<String> = Vec::new();
+    let mut svc_owner: Option<usize> = Some(1);
     for _ in 0..steps {
         uid += 1;
-        match rng.below(8) {
+        match rng.below(10) {
+            8 | 9 => {
+                // a local operation between inbound frames: the name changes hands to another live process, is given
+                // up, or is taken again; what arrives for it afterwards goes to whoever holds it now
+                let nm = Atom::new("svc");
+                let _ = w.node.unregister(&nm).await;
+                svc_owner = match (svc_owner, rng.below(3)) {
+                    (Some(_), 0) => None,
+                    (cur, _) => {
+                        let next = (cur.unwrap_or(0) + 1 + rng.below(2)) % w.procs.len();
+                        if w.node.register(nm.clone(), w.procs[next].clone()).await.is_ok() { Some(next) } else { None }
+                    }
+                };
+                ctx.class(if svc_owner.is_some() { "local/name-changes-hands" } else { "local/name-given-up" });
+                trace.push(format!("svc -> {:?}", svc_owner));
+                // and straight away a message for the name
+                let payload = Val::Tuple(vec![Val::atom("byname"), Val::int(uid)]);
+                let control = Val::Tuple(vec![Val::int(6), remote.clone(), Val::atom(""), Val::atom("svc")]);
+                let _ = peer.write_frame4(&pt(&control, Some(&payload))).await;
+                // a probe to a pid behind it tells when the receiver has got past the message
+                let probe = Val::Tuple(vec![Val::atom("probe"), Val::int(uid), Val::atom("after_name")]);
+                let pc = Val::Tuple(vec![Val::int(2), Val::atom(""), pidval(&w.procs[0])]);
+                let _ = peer.write_frame4(&pt(&pc, Some(&probe))).await;
+                let pw = probe.clone();
+                let seen = wait_for(&w.log, |l| l.iter().any(|e| matches!(e, Ev::Regular { body, .. } if body.same(&pw))), 1500).await;
+                tokio::time::sleep(Duration::from_millis(5)).await;
+                ctx.eval(1);
+                let want = payload.clone();
+                let hits: Vec<u32> = w.log.lock().unwrap().iter().filter_map(|e| match e { Ev::Regular { by, body } if body.same(&want) => Some(*by), _ => None }).collect();
+                let expected: Vec<u32> = svc_owner.map(|k| vec![w.procs[k].id]).unwrap_or_default();
+                if !seen {
+                    ctx.viol("C19:route:probe-lost-after-a-name-change", "a message to a pid sent right behind a message for a name that had just changed hands was not delivered", json!({"scenario": id, "trace": trace}));
+                } else if hits != expected {
+                    ctx.viol(
+                        if svc_owner.is_some() { "C19:route:reg-send-after-the-name-changed-hands" } else { "C19:route:reg-send-after-the-name-was-given-up" },
+                        "a message for a registered name was not delivered to exactly the process holding the name when it arrived (nobody, if the name had been given up)",
+                        json!({"scenario": id, "delivered_to": hits, "expected": expected, "trace": trace}),
+                    );
+                }
+            }
             0 => {
                 // send to a pid
                 let k = rng.below(w.procs.len());
@@ -278,12 +318,13 @@ async fn routing_and_faults(ctx: &Ctx, rng: &mut Rng, epmd: &net::EpmdTable, id:
                 let control = Val::Tuple(vec![Val::int(6), remote.clone(), Val::atom(""), Val::atom("svc")]);
                 let _ = peer.write_frame4(&pt(&control, Some(&payload))).await;
                 let want = payload.clone();
-                let ok = wait_for(&w.log, |l| l.iter().any(|e| matches!(e, Ev::Regular { body, .. } if body.same(&want))), 1500).await;
+                let ok = wait_for(&w.log, |l| l.iter().any(|e| matches!(e, Ev::Regular { body, .. } if body.same(&want))), if svc_owner.is_some() { 1500 } else { 60 }).await;
                 ctx.eval(1);
-                ctx.class("route/reg-send");
+                ctx.class(if svc_owner.is_some() { "route/reg-send" } else { "route/reg-send-to-a-name-given-up" });
                 let l = w.log.lock().unwrap();
                 let hits: Vec<u32> = l.iter().filter_map(|e| match e { Ev::Regular { by, body } if body.same(&want) => Some(*by), _ => None }).collect();
-                if !ok || hits != vec![w.procs[1].id] {
+                let expected: Vec<u32> = svc_owner.map(|k| vec![w.procs[k].id]).unwrap_or_default();
+                if (svc_owner.is_some() && !ok) || hits != expected {
                     ctx.viol("C19:route:reg-send", "a message for a registered name was not delivered to exactly the registered process", json!({"scenario": id, "delivered_to": hits, "trace": trace}));
                 }
                 trace.push("reg_send".into());
